@@ -15,6 +15,8 @@ const PROPS = {
   // numeric keys: `1`, `'1'` and `[1]` name the same property
   n1: { decl: '1?: string', kind: 'val', lit: "'l1'", key: '1' },
   n2: { decl: "'2'?: string", kind: 'val', lit: "'l2'", key: '2' },
+  // declared through a getter signature (an accessor cannot be marked optional)
+  g: { decl: 'get g(): string', kind: 'val', lit: "'lg'" },
   f: { decl: 'f?: () => number', kind: 'fn' },
   m: { decl: 'm?(): number', kind: 'fn' },
   // a union with null: Vue *does* call function defaults here (type is not exactly Function)
@@ -52,7 +54,7 @@ const FORMS = {
 const FORM_KEYS = Object.keys(FORMS);
 const WHOLE = { none: null, ident: 'dflt', spread: '{ ...dflt }', call: 'mkDflt()', spreadPlus: "{ ...dflt, b: 5 }" };
 
-const PRE = R.PRELUDE + "const kn_a = 'a', kn_b = 'b', kn_q = 'q', kn_cd = 'c-d', kn_n1 = 1, kn_n2 = '2';\nconst dflt = __env.dflt;\nconst mkDflt = () => __env.dflt;\n";
+const PRE = R.PRELUDE + "const kn_a = 'a', kn_b = 'b', kn_q = 'q', kn_cd = 'c-d', kn_n1 = 1, kn_n2 = '2', kn_g = 'g';\nconst dflt = __env.dflt;\nconst mkDflt = () => __env.dflt;\n";
 
 function defaultsSrc(c) {
   if (c.whole && c.whole !== 'none') return WHOLE[c.whole];
@@ -70,7 +72,7 @@ function typeSrc(c) {
 }
 
 // how the setup function is written around `props: T = D` (P) ; what another parameter's default is must not matter
-const CTX_DEFAULT = "{ 1: 'ctx1', a: 'ctxa', b: 77, q: 'ctxq', 'c-d': 'ctxcd', d1: d1, f: dfn, m: dfn, fu: dfn }";
+const CTX_DEFAULT = "{ 1: 'ctx1', a: 'ctxa', b: 77, q: 'ctxq', 'c-d': 'ctxcd', g: 'ctxg', d1: d1, f: dfn, m: dfn, fu: dfn }";
 const SETUPS = {
   arrow: (P) => `(${P}) => () => null`,
   fnExpr: (P) => `function (${P}) { return () => null; }`,
@@ -102,7 +104,7 @@ function requests(c) { return [{ src: render(c), ts: true, want: ['eval'], opts:
 
 function mkEnv() {
   const env = R.makeEnv();
-  env.dflt = { a: 'da', b: 3, q: 'dq', 'c-d': 'dcd', 1: 'dn1', 2: 'dn2', d1: { deep: 1 }, f: function df() { return 12; }, m: function dm() { return 13; } };
+  env.dflt = { a: 'da', b: 3, q: 'dq', 'c-d': 'dcd', 1: 'dn1', 2: 'dn2', g: 'dg', d1: { deep: 1 }, f: function df() { return 12; }, m: function dm() { return 13; } };
   env.vueOverride = undefined;
   return env;
 }
